@@ -1,4 +1,5 @@
 import PnVerif.Lemmas.Encode
+import PnVerif.Lemmas.PostPass
 /-
   C04 — any specification-valid classic file is read back exactly.
   Model: Model/Header.lean; independent decoder: Spec/SpecDecode.lean.
@@ -86,6 +87,23 @@ theorem decode_encode (d : Schema) (rest : Bytes) (he : Encodable d) (hl : Limit
       | .error e => .error e) :=
   decode_specvalid _ rest d (header_put d rest he) hl
 
+/-- vsize is ignored and recomputed: for ANY byte string the specification decoder accepts (and the
+    library's limits), if ncmpio_hdr_get_NC opens the file then the header it holds is the
+    specification's schema, and the variable lengths it uses from then on are the ones the format
+    prescribes (product of the dimension lengths × element size, padded to 4) — whatever the vsize
+    fields say (stale, saturated, zero) — for every read chunk size. -/
+theorem open_reads_back (c : Nat) (b rest : Bytes) (d : Schema) (hdr : Hdr) (info : Info)
+    (h : Spec.header b = some (d, rest)) (hl : Limits d) (ho : decodeChunked c b = .ok (hdr, info)) :
+    hdr = d ∧ info.lens = d.vars.map d.varLen ∧ info.xsz = Hdr.len d := by
+  rw [decodeChunked_specvalid c b rest d h hl] at ho
+  cases hp : postPass d with
+  | error e => rw [hp] at ho; cases ho
+  | ok i =>
+    rw [hp] at ho
+    simp only [Except.ok.injEq, Prod.mk.injEq] at ho
+    obtain ⟨rfl, rfl⟩ := ho
+    exact ⟨rfl, postPass_lens d i hp⟩
+
 /-! non-vacuity: a CDF-1 header with a gap before the first variable, a stale vsize, a saturated
     vsize, a zero-length attribute and a record variable meets every hypothesis above -/
 def exampleHdr : Schema :=
@@ -109,6 +127,6 @@ example : (postPass exampleHdr).toOption.map (fun i => (i.xsz, i.lens, i.recsize
 
 def obligations : List String := [
   "encode_length", "chunk_independent", "specDecode_encode", "decode_specvalid", "decodeChunked_specvalid",
-  "decode_encode"
+  "decode_encode", "open_reads_back"
 ]
 end PnVerif.Props.C04
